@@ -19,7 +19,7 @@ TRUSTED = ['Gen/Classes.v regenerated from the source on every run',
            'Core/Model.v glisting / flatten (re-insertion of the decomposed listing with the fallback branch of add_to_graph): hand-written, tied by this correspondence run']
 ASSUMPTIONS = ['the property quantifies over implicitly sequenced programs: generated programs carry no explicit relations (dangling ones excepted)']
 RULE = ('random implicitly sequenced build programs (no explicit relation) with nesting depth <= 3 and repetition counts 1-3; flatten() of the plain and of the unrolled circuit, '
-        'twice; non-trivial: contains a sub-circuit and >= 2 leaves')
+        'twice; non-trivial: contains a sub-circuit and >= 2 leaves Plus ~13% structured shapes (coregen.gen_structured: parallel first blocks of unequal length under two levels of repetition with a follower of the first, a repeated block starting with a plain operation and containing a repeated block, two relation branches of unequal depth and length meeting through a barrier, a long chain beside a short operation followed by a repeated block, an early-starting operation in a doubly nested block).')
 
 
 def gen_cases(rng, tier):
